@@ -5,6 +5,7 @@ Properties/C12.lean — the one-edit generators and the set utilities built on t
 not generated and is not claimed.
 -/
 import Prs.Proofs.NeighborUtils
+import Prs.Proofs.NeighborLoops2
 namespace Prs
 variable {α : Type} [DecidableEq α]
 
@@ -110,5 +111,55 @@ theorem C12_nndist_not_implemented (A : List α) (seq : List α) (ref : List (Li
 example : ['A', 'A'] ∈ levNeighbors ['A', 'C'] ['A', 'A', 'A'] :=
   (C12_lev_exact ['A', 'C'] _ _ (by decide)).2 (by simp [lev])
 example : (levNeighbors ['A', 'C'] ['A', 'A', 'C']).length = 10 := by decide
+
+/-! ### the sources, as translated from pyrepseq/distance.py on this run, are the models
+
+`Generated/NeighborLoops.lean` is rewritten by `tools/gen_loops.py` from the current source on every run: the loops,
+slice bounds, skip conditions and return values below are the ones the Python functions contain now. -/
+section source
+variable [Inhabited α]
+
+/-- `levenshtein_neighbors(x, alphabet=A)`: the three index loops yield the modelled list, in the same order -/
+theorem C12_source_levenshtein_neighbors (A x : List α) :
+    Generated.levenshtein_neighbors x A = levNeighbors A x := gen_levenshtein_neighbors_eq A x
+
+/-- `hamming_neighbors(x, alphabet=A)` (all positions) -/
+theorem C12_source_hamming_neighbors (A x : List α) :
+    Generated.hamming_neighbors x A none = hamNeighbors A x := gen_hamming_neighbors_eq A x
+
+/-- `hamming_neighbors(x, alphabet=A, variable_positions=pos)` for positions inside the string -/
+theorem C12_source_hamming_neighbors_at (A x : List α) (pos : List Nat) (h : ∀ p ∈ pos, p < x.length) :
+    Generated.hamming_neighbors x A (some (pos.map fun p : Nat => (p : Int))) = hamNeighborsAt A pos x :=
+  gen_hamming_neighbors_at_eq A x pos h
+
+theorem C12_source_isdist1 (nb : List α → List (List α)) (x : List α) (ref : List (List α)) :
+    Generated.isdist1 x ref nb = isdist1 nb x ref := gen_isdist1_eq nb x ref
+
+/-- the doubly / triply nested loops of `_isdist2_hamming` / `_isdist3_hamming` -/
+theorem C12_source_isdist2_hamming (A x : List α) (ref : List (List α)) :
+    Generated.isdist2_hamming x ref A = isdistHam A 2 x ref := gen_isdist2_eq A x ref
+theorem C12_source_isdist3_hamming (A x : List α) (ref : List (List α)) :
+    Generated.isdist3_hamming x ref A = isdistHam A 3 x ref := gen_isdist3_eq A x ref
+
+/-- the decision chain of `nndist_hamming` (`none` = NotImplementedError) -/
+theorem C12_source_nndist_hamming (A seq : List α) (ref : List (List α)) (m : Nat) :
+    Generated.nndist_hamming seq ref (m : Int) A = nndistHamming A seq ref m := gen_nndist_hamming_eq A seq ref m
+
+/-- transported: what the source's generator yields is exactly the set of strings at Levenshtein distance 1 … -/
+theorem C12_source_lev_exact (A : List α) (x y : List α) (hy : ∀ c ∈ y, c ∈ A) :
+    y ∈ Generated.levenshtein_neighbors x A ↔ lev x y = 1 := by
+  rw [C12_source_levenshtein_neighbors]; exact C12_lev_exact A x y hy
+
+/-- … and what the source's `nndist_hamming` returns is min(true nearest Hamming distance, maxdist) for maxdist 1..4 -/
+theorem C12_source_nndist (A : List α) (seq : List α) (ref : List (List α)) (m : Nat)
+    (hm1 : 1 ≤ m) (hm4 : m ≤ 4) (hA : ∀ s ∈ ref, ∀ c ∈ s, c ∈ A) :
+    ∃ d, Generated.nndist_hamming seq ref (m : Int) A = some d ∧ d ≤ m ∧
+      (d < m → ∃ r ∈ ref, ham seq r = some d) ∧
+      (∀ r ∈ ref, ∀ e, ham seq r = some e → d ≤ e) := by
+  rw [C12_source_nndist_hamming]; exact C12_nndist A seq ref m hm1 hm4 hA
+
+example : Generated.levenshtein_neighbors ['A', 'A', 'C'] ['A', 'C'] = levNeighbors ['A', 'C'] ['A', 'A', 'C'] :=
+  C12_source_levenshtein_neighbors _ _
+end source
 
 end Prs
